@@ -957,3 +957,831 @@ def bounded_rv_algebra_replay(rp):
         if clause == case['clause'] and fid == case['fid']:
             return (False, detail)
     return (True, 'ok')
+
+
+# ================================================================================================
+# (2) numeric part: positive semidefiniteness, sd/corr conversions, initial estimates, ucp scale
+# ================================================================================================
+
+_IM = 'src/pharmpy/internals/math.py:'
+FID_NPSD = _IM + 'nearest_positive_semidefinite'
+FID_IPSD = _IM + 'is_positive_semidefinite'
+FID_C2C = _IM + 'cov2corr'
+FID_CORR2COV = _IM + 'corr2cov'
+FID_SDCORR = _RV + 'parameters_sdcorr'
+FID_VALID = _RV + 'validate_parameters'
+FID_NEAREST = _RV + 'nearest_valid_parameters'
+FID_CANON = 'src/pharmpy/model/model.py:Model._canonicalize_parameter_estimates'
+FID_UCP = 'src/pharmpy/modeling/estimation.py:calculate_parameters_from_ucp'
+FID_UCPS = 'src/pharmpy/modeling/estimation.py:calculate_ucp_scale'
+_MM = 'src/pharmpy/modeling/math.py:'
+
+GRID = [-2, -1, -0.5, 0, 0.5, 1, 2]
+PSD_TOL = 1e-10
+
+
+def _frac_det(F, idx):
+    """exact determinant of the principal submatrix idx of the Fraction matrix F (Laplace expansion)"""
+    if len(idx) == 1:
+        return F[idx[0]][idx[0]]
+
+    def det(rows, cols):
+        if len(rows) == 1:
+            return F[rows[0]][cols[0]]
+        tot = 0
+        for k, c in enumerate(cols):
+            sub = det(rows[1:], cols[:k] + cols[k + 1:])
+            tot += (-1) ** k * F[rows[0]][c] * sub
+        return tot
+    return det(tuple(idx), tuple(idx))
+
+
+def _exact_class(A):
+    """exact classification of a symmetric matrix with dyadic entries: 'pd', 'singular' (PSD, not PD), 'indef'
+    (reference: a symmetric matrix is PSD iff every principal minor is >= 0, PD iff every leading one is > 0)"""
+    from fractions import Fraction
+    n = len(A)
+    F = [[Fraction(float(x)) for x in row] for row in A]
+    if all(_frac_det(F, tuple(range(r))) > 0 for r in range(1, n + 1)):
+        return 'pd'
+    for r in range(1, n + 1):
+        for idx in itertools.combinations(range(n), r):
+            if _frac_det(F, idx) < 0:
+                return 'indef'
+    return 'singular'
+
+
+def _sym_from(vals, n):
+    """symmetric n x n matrix from the lower triangle listed row-wise"""
+    A = [[0.0] * n for _ in range(n)]
+    it = iter(vals)
+    for i in range(n):
+        for j in range(i + 1):
+            v = float(next(it))
+            A[i][j] = v
+            A[j][i] = v
+    return A
+
+
+def _projection(A):
+    """nearest PSD matrix in the Frobenius norm of a symmetric matrix: V max(L, 0) V^T (Higham 1988)"""
+    import numpy as np
+    w, V = np.linalg.eigh(A)
+    return (V * np.maximum(w, 0)) @ V.T
+
+
+def _mineig(A):
+    import numpy as np
+    A = np.asarray(A, dtype=float)
+    return float(np.linalg.eigvalsh((A + A.T) / 2).min())
+
+
+# ---- (a) nearest_positive_semidefinite / is_positive_semidefinite on grid matrices ----------------
+
+def _chk_psd(inp):
+    import numpy as np
+    from pharmpy.internals.math import is_positive_semidefinite, nearest_positive_semidefinite
+    fails = []
+    A_list = _sym_from(inp['tril'], inp['n'])
+    cls = _exact_class(A_list)
+    A = np.array(A_list, dtype=float)
+    A0 = A.copy()
+    try:
+        got = bool(is_positive_semidefinite(A))
+    except Exception as e:  # noqa
+        fails.append((FID_IPSD, 'is_positive_semidefinite: no internal error', '%s: %s for %r' % (type(e).__name__, e, A_list)))
+        got = None
+    if got is not None:
+        if cls == 'pd' and not got:
+            fails.append((FID_IPSD, 'is_positive_semidefinite accepts every positive definite matrix', repr(A_list)))
+        if cls == 'indef' and got:
+            fails.append((FID_IPSD, 'is_positive_semidefinite rejects every matrix with a negative principal minor', repr(A_list)))
+        if cls == 'singular' and not got:
+            fails.append((FID_IPSD, 'is_positive_semidefinite accepts every singular positive semidefinite matrix',
+                          '%r has only non-negative principal minors (numpy eigvalsh min %.3g) but is rejected'
+                          % (A_list, _mineig(A0))))
+    try:
+        R = nearest_positive_semidefinite(A)
+    except Exception as e:  # noqa
+        fails.append((FID_NPSD, 'nearest_positive_semidefinite: no internal error', '%s: %s for %r' % (type(e).__name__, e, A_list)))
+        return fails
+    if not np.array_equal(A, A0):
+        fails.append((FID_NPSD, 'nearest_positive_semidefinite does not modify its argument', repr(A_list)))
+    R = np.asarray(R, dtype=float)
+    if R.shape != A0.shape or not np.all(np.isfinite(R)) or not np.allclose(R, R.T, rtol=0, atol=1e-12):
+        fails.append((FID_NPSD, 'nearest_positive_semidefinite returns a finite symmetric matrix of the same shape',
+                      '%r -> %r' % (A_list, R.tolist())))
+        return fails
+    mn = _mineig(R)
+    if mn < -PSD_TOL:
+        fails.append((FID_NPSD, 'nearest_positive_semidefinite returns a positive semidefinite matrix (eigenvalues >= -1e-10)',
+                      '%r -> %r with smallest eigenvalue %.3g' % (A_list, R.tolist(), mn)))
+    if cls == 'pd' and not np.array_equal(R, A0):
+        fails.append((FID_NPSD, 'nearest_positive_semidefinite returns a positive definite matrix unchanged',
+                      '%r -> %r' % (A_list, R.tolist())))
+    if cls == 'singular' and not np.array_equal(R, A0):
+        fails.append((FID_NPSD, 'nearest_positive_semidefinite returns a singular positive semidefinite matrix unchanged',
+                      '%r (all principal minors >= 0) -> %r, max abs change %.3g' % (A_list, R.tolist(), float(np.abs(R - A0).max()))))
+    P = _projection(A0)
+    if float(np.abs(R - P).max()) > 1e-8:
+        fails.append((FID_NPSD, 'nearest_positive_semidefinite returns the nearest PSD matrix in the Frobenius norm (within 1e-8)',
+                      '%r -> %r, projection on the PSD cone is %r' % (A_list, R.tolist(), P.tolist())))
+    return fails
+
+
+def _psd_inputs(tier):
+    out = []
+    for vals in itertools.product(GRID, repeat=3):
+        out.append({'n': 2, 'tril': list(vals)})
+    g3 = GRID if tier == 'thorough' else [-1, -0.5, 0, 0.5, 1, 2]
+    for vals in itertools.product(g3, repeat=6):
+        out.append({'n': 3, 'tril': list(vals)})
+    if tier == 'thorough':
+        for vals in itertools.product([-1, 0, 1], repeat=10):
+            out.append({'n': 4, 'tril': list(vals)})
+    return out
+
+
+# ---- (b) cov2corr / corr2cov ------------------------------------------------------------------------
+
+def _chk_corr(inp):
+    import numpy as np
+    from pharmpy.internals.math import corr2cov, cov2corr
+    fails = []
+    n = inp['n']
+    if inp['dir'] == 'cov':
+        A_list = _sym_from(inp['tril'], n)
+        A = np.array(A_list, dtype=float)
+        A0 = A.copy()
+        try:
+            C = np.asarray(cov2corr(A), dtype=float)
+        except Exception as e:  # noqa
+            return [(FID_C2C, 'cov2corr: no internal error', '%s: %s for %r' % (type(e).__name__, e, A_list))]
+        if not np.array_equal(A, A0):
+            fails.append((FID_C2C, 'cov2corr does not modify its argument', repr(A_list)))
+        exp = [[A_list[i][j] / (math.sqrt(A_list[i][i]) * math.sqrt(A_list[j][j])) for j in range(n)] for i in range(n)]
+        if C.shape != (n, n) or float(np.abs(C - np.array(exp)).max()) > 1e-12:
+            fails.append((FID_C2C, 'cov2corr gives cov[i,j] / (sd[i] sd[j]) with unit diagonal',
+                          '%r -> %r, expected %r' % (A_list, C.tolist(), exp)))
+            return fails
+        sd = np.sqrt(np.diag(A0))
+        sd0 = sd.copy()
+        C0 = C.copy()
+        try:
+            B = np.asarray(corr2cov(C, sd), dtype=float)
+        except Exception as e:  # noqa
+            return fails + [(FID_CORR2COV, 'corr2cov: no internal error', '%s: %s for %r' % (type(e).__name__, e, C.tolist()))]
+        if not np.array_equal(C, C0) or not np.array_equal(sd, sd0):
+            fails.append((FID_CORR2COV, 'corr2cov does not modify its arguments', repr(A_list)))
+        if B.shape != (n, n) or float(np.abs(B - A0).max()) > 1e-12:
+            fails.append((FID_CORR2COV, 'corr2cov(cov2corr(A), sqrt(diag(A))) == A for positive diagonals',
+                          '%r -> %r -> %r' % (A_list, C.tolist(), B.tolist())))
+    else:
+        C_list = _sym_from(inp['tril'], n)
+        sd = [float(x) for x in inp['sd']]
+        C = np.array(C_list, dtype=float)
+        try:
+            B = np.asarray(corr2cov(C, np.array(sd)), dtype=float)
+        except Exception as e:  # noqa
+            return [(FID_CORR2COV, 'corr2cov: no internal error', '%s: %s for %r' % (type(e).__name__, e, C_list))]
+        exp = [[C_list[i][j] * sd[i] * sd[j] for j in range(n)] for i in range(n)]
+        if B.shape != (n, n) or float(np.abs(B - np.array(exp)).max()) > 1e-12:
+            fails.append((FID_CORR2COV, 'corr2cov gives corr[i,j] sd[i] sd[j]', '%r, %r -> %r, expected %r' % (C_list, sd, B.tolist(), exp)))
+            return fails
+        try:
+            C2 = np.asarray(cov2corr(B), dtype=float)
+        except Exception as e:  # noqa
+            return fails + [(FID_C2C, 'cov2corr: no internal error', '%s: %s for %r' % (type(e).__name__, e, B.tolist()))]
+        if float(np.abs(C2 - C).max()) > 1e-12:
+            fails.append((FID_C2C, 'cov2corr(corr2cov(C, sd)) == C for unit-diagonal C and positive sd',
+                          '%r, %r -> %r -> %r' % (C_list, sd, B.tolist(), C2.tolist())))
+    return fails
+
+
+def _tril_with_diag(n, diag, off):
+    """lower triangle (row-wise) with the given diagonal and off-diagonal values"""
+    vals = []
+    it = iter(off)
+    for i in range(n):
+        for j in range(i + 1):
+            vals.append(diag[i] if i == j else next(it))
+    return vals
+
+
+def _corr_inputs(tier):
+    out = []
+    pos = [0.5, 1, 2]
+    for n in (2, 3):
+        noff = n * (n - 1) // 2
+        offgrid = GRID if (n == 2 or tier == 'thorough') else [-1, -0.5, 0, 0.5, 2]
+        for diag in itertools.product(pos, repeat=n):
+            for off in itertools.product(offgrid, repeat=noff):
+                out.append({'dir': 'cov', 'n': n, 'tril': _tril_with_diag(n, diag, off)})
+        cgrid = [-1, -0.5, 0, 0.5, 1]
+        for sd in itertools.product(pos, repeat=n):
+            for off in itertools.product(cgrid, repeat=noff):
+                out.append({'dir': 'corr', 'n': n, 'sd': list(sd), 'tril': _tril_with_diag(n, [1] * n, off)})
+    return out
+
+
+# ---- collections with parameter values (c, d, e) ------------------------------------------------------
+
+def _param_roles(ref):
+    """parameter symbol -> 'var' | 'cov' (by its position in the distributions)"""
+    roles = {}
+    for (a, b), v in ref['cov'].items():
+        if _isnum(v):
+            continue
+        role = 'var' if a == b else 'cov'
+        if roles.get(v, role) != role:
+            raise AssertionError('parameter used both as variance and covariance')
+        roles[v] = role
+    return roles
+
+
+def _value_colls(nmax, extra22=True):
+    seen = []
+    for desc in _collections(1, nmax, all_levels=False):
+        if desc['variant'] == 'numeric':
+            continue
+        seen.append(desc)
+    if extra22 and nmax < 4:
+        for variant in ('distinct', 'shared'):
+            seen.append({'variant': variant, 'blocks': [[2, 'IIV'], [2, 'IIV']]})
+    # the IOV pattern: a joint IIV block followed by two occasions sharing one matrix / one variance
+    for variant in ('shared',):
+        seen.append({'variant': variant, 'blocks': [[2, 'IIV'], [1, 'IOV'], [1, 'IOV']]})
+    return seen
+
+
+def _assignments(ref, vargrid, covgrid):
+    roles = _param_roles(ref)
+    names = sorted(roles)
+    grids = [vargrid if roles[p] == 'var' else covgrid for p in names]
+    for vals in itertools.product(*grids):
+        yield dict(zip(names, [float(v) for v in vals]))
+
+
+def _block_matrices(ref, values):
+    """per joint distribution: (names, numeric matrix as nested list) under the parameter values"""
+    out = []
+    for b in ref['blocks']:
+        if len(b) < 2:
+            continue
+        out.append((b, [[values[ref['cov'][(x, y)]] if not _isnum(ref['cov'][(x, y)]) else float(ref['cov'][(x, y)])
+                         for y in b] for x in b]))
+    return out
+
+
+def _chk_sdcorr(inp):
+    import numpy as np
+    from pharmpy.internals.math import corr2cov
+    rvs, ref = _ref_only(inp['coll'])
+    values = dict(inp['values'])
+    values['THETA_X'] = 7.0
+    v0 = dict(values)
+    what = 'parameters_sdcorr(%r) on %r' % (inp['values'], [[ref['cov'][(x, y)] for y in b] for b in ref['blocks'] for x in b])
+    try:
+        got = rvs.parameters_sdcorr(values)
+    except Exception as e:  # noqa
+        return [(FID_SDCORR, 'parameters_sdcorr: no internal error', '%s: %s for %s' % (type(e).__name__, e, what))]
+    fails = []
+    if values != v0:
+        fails.append((FID_SDCORR, 'parameters_sdcorr does not modify its argument', what))
+    # independent computation: sd = sqrt(var), corr = cov / (sd_i sd_j), per position
+    exp = {'THETA_X': 7.0}
+    conflict = False
+    for b in ref['blocks']:
+        for x in b:
+            for y in b:
+                p = ref['cov'][(x, y)]
+                if x == y:
+                    e = math.sqrt(v0[p])
+                else:
+                    e = v0[p] / (math.sqrt(v0[ref['cov'][(x, x)]]) * math.sqrt(v0[ref['cov'][(y, y)]]))
+                if p in exp and abs(exp[p] - e) > 1e-12:
+                    conflict = True
+                exp[p] = e
+    assert not conflict
+    try:
+        gotf = {k: float(v) for k, v in dict(got).items()}
+    except Exception as e:  # noqa
+        return fails + [(FID_SDCORR, 'parameters_sdcorr returns a dict of numbers with the keys of its argument', '%s: %r' % (what, got))]
+    if set(gotf) != set(exp):
+        fails.append((FID_SDCORR, 'parameters_sdcorr returns a dict of numbers with the keys of its argument', '%s: %r' % (what, got)))
+        return fails
+    bad = [k for k in sorted(exp) if abs(gotf[k] - exp[k]) > 1e-12]
+    if bad:
+        fails.append((FID_SDCORR, 'parameters_sdcorr gives sd = sqrt(var) and corr = cov / (sd_i sd_j), other values untouched',
+                      '%s: %s = %r, expected %r' % (what, bad[0], gotf[bad[0]], exp[bad[0]])))
+        return fails
+    # converting back gives the original values
+    back = {'THETA_X': gotf['THETA_X']}
+    for b in ref['blocks']:
+        sd = np.array([gotf[ref['cov'][(x, x)]] for x in b])
+        C = np.array([[1.0 if x == y else gotf[ref['cov'][(x, y)]] for y in b] for x in b])
+        S = corr2cov(C, sd) if len(b) > 1 else np.array([[sd[0] ** 2]])
+        for i, x in enumerate(b):
+            for j, y in enumerate(b):
+                back[ref['cov'][(x, y)]] = float(S[i, j])
+    bad = [k for k in sorted(v0) if abs(back[k] - v0[k]) > 1e-12]
+    if bad:
+        fails.append((FID_SDCORR, 'converting the sd/corr values back (squaring, corr2cov) gives the original values',
+                      '%s: %s comes back as %r' % (what, bad[0], back[bad[0]])))
+    return fails
+
+
+def _sdcorr_inputs(tier):
+    out = []
+    for desc in _value_colls(4 if tier == 'thorough' else 3):
+        _, ref = _ref_only(desc)
+        n = sum(s for s, _ in desc['blocks'])
+        covgrid = [-0.1, 0, 0.2] if (n <= 3 or tier == 'thorough') else [-0.1, 0.2]
+        for values in _assignments(ref, [0.25, 1, 4], covgrid):
+            out.append({'coll': desc, 'values': values})
+    return out
+
+
+_REFCACHE = {}
+
+
+def _ref_only(desc):
+    key = json.dumps(desc)
+    if key not in _REFCACHE:
+        _REFCACHE[key] = _build(desc)
+    return _REFCACHE[key]
+
+
+def _validity(ref, values):
+    """exact classification of the parameter values: 'pd' (all blocks PD), 'singular' (all PSD, some singular), 'indef'"""
+    cl = [_exact_class(M) for _, M in _block_matrices(ref, values)]
+    if 'indef' in cl:
+        return 'indef', cl
+    if 'singular' in cl:
+        return 'singular', cl
+    return 'pd', cl
+
+
+def _chk_nearest_result(fails, fid, prefix, ref, v0, new, what):
+    """clauses on repaired values: every block PSD, nearest, untouched outside invalid blocks"""
+    import numpy as np
+    if set(new) != set(v0):
+        fails.append((fid, prefix + ': the parameter names are unchanged', '%s -> %r' % (what, new)))
+        return
+    touched = set()
+    for b, M in _block_matrices(ref, v0):
+        Mn = [[float(new[ref['cov'][(x, y)]]) for y in b] for x in b]
+        cls = _exact_class(M)
+        if cls == 'indef':
+            for x in b:
+                for y in b:
+                    touched.add(ref['cov'][(x, y)])
+            mn = _mineig(Mn)
+            if mn < -PSD_TOL:
+                fails.append((fid, prefix + ': every invalid covariance block becomes positive semidefinite',
+                              '%s: block %r becomes %r with smallest eigenvalue %.3g' % (what, b, Mn, mn)))
+            elif float(np.abs(np.array(Mn) - _projection(np.array(M, dtype=float))).max()) > 1e-8:
+                fails.append((fid, prefix + ': an invalid covariance block is replaced by the nearest PSD matrix (within 1e-8)',
+                              '%s: block %r becomes %r, projection %r' % (what, b, Mn, _projection(np.array(M, dtype=float)).tolist())))
+    classes = {}
+    for b, M in _block_matrices(ref, v0):
+        c = _exact_class(M)
+        for x in b:
+            for y in b:
+                classes.setdefault(ref['cov'][(x, y)], set()).add(c)
+    for k in sorted(v0):
+        if k in touched:
+            continue
+        if not (isinstance(new[k], (int, float)) and float(new[k]) == v0[k]):
+            if 'singular' in classes.get(k, ()):
+                clause = prefix + ': values of a singular positive semidefinite block are never altered'
+            else:
+                clause = prefix + ': values outside invalid blocks are never altered (positive definite blocks, other parameters)'
+            fails.append((fid, clause, '%s: %s becomes %r (change %.3g)' % (what, k, new[k], float(new[k]) - v0[k])))
+            break
+
+
+def _chk_valid(inp):
+    rvs, ref = _ref_only(inp['coll'])
+    values = dict(inp['values'])
+    values['THETA_X'] = 7.0
+    v0 = dict(values)
+    what = 'values %r for %r' % (inp['values'], [[[ref['cov'][(x, y)] for y in b] for x in b] for b in ref['blocks']])
+    cls, _ = _validity(ref, v0)
+    fails = []
+    try:
+        ok = bool(rvs.validate_parameters(values))
+    except Exception as e:  # noqa
+        return [(FID_VALID, 'validate_parameters: no internal error', '%s: %s for %s' % (type(e).__name__, e, what))]
+    if cls == 'pd' and not ok:
+        fails.append((FID_VALID, 'validate_parameters accepts values with positive definite blocks', what))
+    if cls == 'singular' and not ok:
+        fails.append((FID_VALID, 'validate_parameters accepts values with singular positive semidefinite blocks', what))
+    if cls == 'indef' and ok:
+        fails.append((FID_VALID, 'validate_parameters rejects values with an indefinite block', what))
+    try:
+        new = dict(rvs.nearest_valid_parameters(values))
+    except Exception as e:  # noqa
+        return fails + [(FID_NEAREST, 'nearest_valid_parameters: no internal error', '%s: %s for %s' % (type(e).__name__, e, what))]
+    if values != v0:
+        fails.append((FID_NEAREST, 'nearest_valid_parameters does not modify its argument', what))
+    _chk_nearest_result(fails, FID_NEAREST, 'nearest_valid_parameters', ref, v0, new, what)
+    if cls == 'indef':
+        try:
+            ok2 = bool(rvs.validate_parameters(new))
+        except Exception as e:  # noqa
+            ok2 = '%s: %s' % (type(e).__name__, e)
+        if ok2 is not True:
+            fails.append((FID_NEAREST, 'nearest_valid_parameters: the repaired values pass validate_parameters',
+                          '%s -> %r: %r' % (what, new, ok2)))
+    return fails
+
+
+def _valid_inputs(tier):
+    out = []
+    if tier == 'thorough':
+        vargrid, covgrid, nmax = [0, 0.5, 1, 2], GRID, 4
+    else:
+        vargrid, covgrid, nmax = [0.5, 1, 2], [-1, -0.5, 0, 0.5, 1, 2], 3
+    for desc in _value_colls(nmax):
+        if all(s == 1 for s, _ in desc['blocks']):
+            continue
+        _, ref = _ref_only(desc)
+        n = sum(s for s, _ in desc['blocks'])
+        cg = covgrid
+        if len(_param_roles(ref)) > 7:
+            cg = [-1, 0, 0.5, 2]
+        if tier != 'thorough' and n == 4 and desc['variant'] == 'distinct' and len(desc['blocks']) == 2:
+            cg = [-1, -0.5, 0.5, 2]
+        for values in _assignments(ref, vargrid, cg):
+            out.append({'coll': desc, 'values': values})
+    return out
+
+
+def _mk_model(ref, rvs, values):
+    from pharmpy.model import Model, Parameter, Parameters
+    roles = _param_roles(ref)
+    pars = [Parameter.create('THETA_X', 7.0, lower=0)]
+    for p in sorted(roles):
+        pars.append(Parameter.create(p, values[p], lower=0 if roles[p] == 'var' else None))
+    return Model.create(name='m', parameters=Parameters.create(pars), random_variables=rvs), Parameters.create(pars)
+
+
+def _chk_model(inp):
+    from pharmpy.model import Model, Parameter, Parameters
+    rvs, ref = _ref_only(inp['coll'])
+    v0 = dict(inp['values'])
+    v0['THETA_X'] = 7.0
+    what = 'initial estimates %r for %r' % (inp['values'], [[[ref['cov'][(x, y)] for y in b] for x in b] for b in ref['blocks']])
+    fails = []
+    roles = _param_roles(ref)
+    valid_start = {p: (1.0 if roles[p] == 'var' else 0.0) for p in roles}
+    for way in ('create', 'replace'):
+        prefix = 'Model.%s' % way
+        try:
+            if way == 'create':
+                model, _ = _mk_model(ref, rvs, v0)
+            else:
+                base, pars = _mk_model(ref, rvs, valid_start)
+                model = base.replace(parameters=pars.set_initial_estimates(v0))
+            new = {k: float(v) for k, v in model.parameters.inits.items()}
+        except Exception as e:  # noqa
+            fails.append((FID_CANON, prefix + ': no internal error', '%s: %s for %s' % (type(e).__name__, e, what)))
+            continue
+        _chk_nearest_result(fails, FID_CANON, prefix, ref, v0, new, what)
+    del Model, Parameter, Parameters
+    return fails
+
+
+def _model_inputs(tier):
+    out = []
+    if tier == 'thorough':
+        vargrid, covgrid, nmax = [0, 0.5, 1, 2], [-2, -1, -0.5, 0, 0.5, 1, 2], 3
+    else:
+        vargrid, covgrid, nmax = [0.5, 2], [-1, 0, 0.5, 1, 2], 3
+    for desc in _value_colls(nmax):
+        if all(s == 1 for s, _ in desc['blocks']):
+            continue
+        _, ref = _ref_only(desc)
+        for values in _assignments(ref, vargrid, covgrid):
+            out.append({'coll': desc, 'values': values})
+    return out
+
+
+# ---- (f) ucp scale -------------------------------------------------------------------------------------
+
+_UCP = {}
+
+
+def _ucp_env():
+    if _UCP:
+        return _UCP
+    from pharmpy.modeling import create_joint_distribution, load_example_model
+    pheno = load_example_model('pheno')
+    moxo = load_example_model('moxo')
+    _UCP['pheno'] = pheno
+    _UCP['moxo'] = moxo
+    _UCP['pheno_joint'] = create_joint_distribution(pheno, ['ETA_CL', 'ETA_VC'], individual_estimates=None)
+    _UCP['moxo_joint'] = create_joint_distribution(moxo, ['ETA_1', 'ETA_2', 'ETA_3'], individual_estimates=None)
+    return _UCP
+
+
+def _ucp_model(inp):
+    """build the model variant described by inp: base model, then a list of modifications"""
+    env = _ucp_env()
+    model = env[inp['base']]
+    for mod in inp['mods']:
+        kind = mod[0]
+        pars = model.parameters
+        if kind == 'fix':
+            model = model.replace(parameters=pars.set_fix({mod[1]: True}))
+        elif kind == 'init':
+            model = model.replace(parameters=pars.set_initial_estimates({mod[1]: mod[2]}))
+        elif kind == 'corr':
+            # covariance parameter mod[1] between variances mod[2], mod[3] set to correlation mod[4]
+            inits = pars.inits
+            model = model.replace(parameters=pars.set_initial_estimates(
+                {mod[1]: mod[4] * math.sqrt(inits[mod[2]] * inits[mod[3]])}))
+        elif kind == 'scale':
+            model = model.replace(parameters=pars.set_initial_estimates({mod[1]: pars.inits[mod[1]] * mod[2]}))
+        elif kind == 'bounds':
+            from pharmpy.model import Parameters
+            new = [q.replace(lower=mod[2], upper=mod[3]) if q.name == mod[1] else q for q in pars]
+            model = model.replace(parameters=Parameters.create(new))
+        else:
+            raise AssertionError(kind)
+    return model
+
+
+UCP_COVS = {'pheno_joint': [('IIV_CL_IIV_VC', 'IIV_CL', 'IIV_VC')],
+            'moxo': [('OMEGA_2_1', 'OMEGA_1_1', 'IIV_CL_V')]}
+
+
+def _chk_ucp(inp):
+    from pharmpy.modeling import calculate_parameters_from_ucp, calculate_ucp_scale
+    model = _ucp_model(inp)
+    pars = model.parameters
+    inits = {k: float(v) for k, v in pars.inits.items()}
+    fixed = set(k for k, f in pars.fix.items() if f)
+    rvs = model.random_variables
+    what = '%s with %r (inits %r, fixed %r)' % (inp['base'], inp['mods'], inits, sorted(fixed))
+    # classify the case by its own reference walk over the distributions
+    negcov = False
+    zerovar = False
+    partial = False
+    for d in [rvs[i] for i in range(len(rvs))]:
+        ref = _extract(type(rvs).create([d]))
+        for (a, b), v in ref['cov'].items():
+            val = inits[v] if not _isnum(v) else float(v)
+            if a != b and val < 0:
+                negcov = True
+            if a == b and val == 0:
+                zerovar = True
+        syms = _symbols_of(ref)
+        if len(ref['blocks'][0]) > 1 and 0 < len(syms & fixed) < len(syms):
+            partial = True
+    if zerovar:
+        suffix = ' (a variance fixed to zero)'
+    elif partial:
+        suffix = ' (a joint block with only some of its parameters fixed)'
+    elif negcov:
+        suffix = ' (a negative covariance)'
+    else:
+        suffix = ' (positive variances, non-negative covariances, joint blocks fixed as a whole or not at all)'
+    try:
+        scale = calculate_ucp_scale(model)
+    except Exception as e:  # noqa
+        return [(FID_UCPS, 'calculate_ucp_scale: no internal error' + suffix, '%s: %s for %s' % (type(e).__name__, e, what))]
+    ucps = {k: 0.1 for k in inits if k not in fixed}
+    try:
+        res = calculate_parameters_from_ucp(model, scale, ucps)
+        got = {k: float(res[k]) for k in res.index}
+    except Exception as e:  # noqa
+        return [(FID_UCP, 'calculate_parameters_from_ucp: no internal error' + suffix, '%s: %s for %s' % (type(e).__name__, e, what))]
+    fails = []
+    missing = [k for k in inits if k not in fixed and k not in got]
+    if missing:
+        fails.append((FID_UCP, 'calculate_parameters_from_ucp returns every non-fixed parameter', '%s: %r missing' % (what, missing)))
+    bad = [k for k in got if k in inits and abs(got[k] - inits[k]) > 1e-8 * max(1.0, abs(inits[k])) + 1e-12]
+    bad_rel = [k for k in got if k in inits and k not in bad and abs(got[k] - inits[k]) > 1e-8 * abs(inits[k])]
+    if bad or bad_rel:
+        k = (bad or bad_rel)[0]
+        fails.append((FID_UCP, 'from_ucp(scale(M), all ucp 0.1) gives back the initial estimates' + suffix,
+                      '%s: %s comes back as %r, initial estimate %r' % (what, k, got[k], inits[k])))
+    extra = [k for k in got if k not in inits]
+    if extra:
+        fails.append((FID_UCP, 'calculate_parameters_from_ucp returns only parameters of the model', '%s: %r' % (what, extra)))
+    if {k: float(v) for k, v in model.parameters.inits.items()} != inits:
+        fails.append((FID_UCP, 'calculate_parameters_from_ucp does not modify the model', what))
+    return fails
+
+
+def _ucp_inputs(tier):
+    env = _ucp_env()
+    out = []
+    corrs = [-0.9, -0.5, -0.1, 0.1, 0.5, 0.9] if tier == 'thorough' else [-0.5, 0.1, 0.5]
+    scales = [0.5, 2, 10] if tier == 'thorough' else [0.5, 2]
+    for base in ('pheno', 'moxo', 'pheno_joint', 'moxo_joint'):
+        model = env[base]
+        names = list(model.parameters.names)
+        rvsyms = set(str(s) for s in model.random_variables.free_symbols)
+        thetas = [n for n in names if n not in rvsyms]
+        out.append({'base': base, 'mods': []})
+        for n in names:
+            out.append({'base': base, 'mods': [['fix', n]]})
+        for a, b in itertools.combinations(names, 2):
+            if tier == 'thorough' or (a in thetas) != (b in thetas):
+                out.append({'base': base, 'mods': [['fix', a], ['fix', b]]})
+        out.append({'base': base, 'mods': [['fix', n] for n in thetas]})
+        for n in names:
+            for f in scales:
+                if n in thetas or n in model.random_variables.variance_parameters:
+                    out.append({'base': base, 'mods': [['scale', n, f]]})
+        for n in thetas:
+            init = model.parameters.inits[n]
+            out.append({'base': base, 'mods': [['bounds', n, None, None]]})
+            out.append({'base': base, 'mods': [['bounds', n, init / 2, init * 4]]})
+            out.append({'base': base, 'mods': [['bounds', n, None, None], ['init', n, -init]]})
+        for cov, v1, v2 in UCP_COVS.get(base, []):
+            out.append({'base': base, 'mods': [['fix', cov], ['fix', v1], ['fix', v2]]})
+            out.append({'base': base, 'mods': [['fix', cov], ['fix', v1], ['fix', v2], ['fix', thetas[0]]]})
+            for r in corrs:
+                out.append({'base': base, 'mods': [['corr', cov, v1, v2, r]]})
+                out.append({'base': base, 'mods': [['corr', cov, v1, v2, r], ['fix', thetas[0]]]})
+        # a variance fixed to zero (the usual way to switch a random effect off)
+        for n in model.random_variables.variance_parameters:
+            cpars = [c for c, v1, v2 in UCP_COVS.get(base, []) if n in (v1, v2)]
+            mods = [['init', c, 0.0] for c in cpars] + [['fix', c] for c in cpars] + [['init', n, 0.0], ['fix', n]]
+            if base != 'moxo_joint':
+                out.append({'base': base, 'mods': mods})
+    return out
+
+
+# ---- (g) pharmpy.modeling matrix conversions --------------------------------------------------------------
+
+MM_FUNCS = ('calculate_se_from_cov', 'calculate_se_from_prec', 'calculate_corr_from_cov', 'calculate_cov_from_prec',
+            'calculate_cov_from_corrse', 'calculate_prec_from_cov', 'calculate_prec_from_corrse', 'calculate_corr_from_prec')
+
+
+def _chk_mm(inp):
+    import numpy as np
+    import pandas as pd
+    import pharmpy.modeling as pm
+    n = inp['n']
+    A_list = _sym_from(inp['tril'], n)
+    labels = ['P%d' % (i + 1) for i in range(n)]
+    cov = pd.DataFrame(np.array(A_list, dtype=float), index=labels, columns=labels)
+    cov0 = cov.copy()
+    fails = []
+    tol = 1e-9
+
+    def call(name, *args):
+        try:
+            return getattr(pm, name)(*args)
+        except Exception as e:  # noqa
+            fails.append((_MM + name, name + ': no internal error', '%s: %s for cov %r' % (type(e).__name__, e, A_list)))
+            return None
+
+    def close(x, y):
+        x = np.asarray(x, dtype=float)
+        y = np.asarray(y, dtype=float)
+        return x.shape == y.shape and bool(np.all(np.abs(x - y) <= tol * (1 + np.abs(y))))
+
+    def labelled(obj):
+        if isinstance(obj, pd.Series):
+            return list(obj.index) == labels
+        return isinstance(obj, pd.DataFrame) and list(obj.index) == labels and list(obj.columns) == labels
+
+    sd_ref = np.array([math.sqrt(A_list[i][i]) for i in range(n)])
+    corr_ref = np.array([[A_list[i][j] / (sd_ref[i] * sd_ref[j]) for j in range(n)] for i in range(n)])
+    se = call('calculate_se_from_cov', cov)
+    if se is not None and not (labelled(se) and close(se.values, sd_ref)):
+        fails.append((_MM + 'calculate_se_from_cov', 'calculate_se_from_cov gives the square roots of the diagonal, labels kept',
+                      'cov %r -> %r' % (A_list, se.to_dict())))
+    corr = call('calculate_corr_from_cov', cov)
+    if corr is not None and not (labelled(corr) and close(corr.values, corr_ref)):
+        fails.append((_MM + 'calculate_corr_from_cov', 'calculate_corr_from_cov gives cov[i,j] / (se_i se_j), labels kept',
+                      'cov %r -> %r' % (A_list, np.asarray(corr).tolist())))
+    prec = call('calculate_prec_from_cov', cov)
+    if prec is not None and not (labelled(prec) and close(prec.values @ cov0.values, np.eye(n)) and close(cov0.values @ prec.values, np.eye(n))):
+        fails.append((_MM + 'calculate_prec_from_cov', 'calculate_prec_from_cov gives the matrix inverse, labels kept',
+                      'cov %r -> %r' % (A_list, np.asarray(prec).tolist())))
+        prec = None
+    se_s = pd.Series(sd_ref, index=labels)
+    corr_d = pd.DataFrame(corr_ref, index=labels, columns=labels)
+    back = call('calculate_cov_from_corrse', corr_d, se_s)
+    if back is not None and not (labelled(back) and close(back.values, cov0.values)):
+        fails.append((_MM + 'calculate_cov_from_corrse', 'calculate_cov_from_corrse inverts calculate_corr_from_cov / calculate_se_from_cov',
+                      'cov %r -> corr, se -> %r' % (A_list, np.asarray(back).tolist())))
+    if prec is not None:
+        prec0 = prec.copy()
+        back = call('calculate_cov_from_prec', prec)
+        if back is not None and not (labelled(back) and close(back.values, cov0.values)):
+            fails.append((_MM + 'calculate_cov_from_prec', 'calculate_cov_from_prec inverts calculate_prec_from_cov',
+                          'cov %r -> prec -> %r' % (A_list, np.asarray(back).tolist())))
+        se2 = call('calculate_se_from_prec', prec)
+        if se2 is not None and not (labelled(se2) and close(se2.values, sd_ref)):
+            fails.append((_MM + 'calculate_se_from_prec', 'calculate_se_from_prec agrees with calculate_se_from_cov of the inverse',
+                          'cov %r -> prec -> %r' % (A_list, se2.to_dict())))
+        corr2 = call('calculate_corr_from_prec', prec)
+        if corr2 is not None and not (labelled(corr2) and close(corr2.values, corr_ref)):
+            fails.append((_MM + 'calculate_corr_from_prec', 'calculate_corr_from_prec agrees with calculate_corr_from_cov of the inverse',
+                          'cov %r -> prec -> %r' % (A_list, np.asarray(corr2).tolist())))
+        prec2 = call('calculate_prec_from_corrse', corr_d, se_s)
+        if prec2 is not None and not (labelled(prec2) and close(prec2.values @ cov0.values, np.eye(n))):
+            fails.append((_MM + 'calculate_prec_from_corrse', 'calculate_prec_from_corrse gives the inverse of calculate_cov_from_corrse',
+                          'cov %r -> %r' % (A_list, np.asarray(prec2).tolist())))
+        if not prec.equals(prec0):
+            fails.append((_MM + 'calculate_cov_from_prec', 'the matrix conversions do not modify their arguments', 'prec of %r' % (A_list,)))
+    if not cov.equals(cov0) or not close(se_s.values, sd_ref) or not close(corr_d.values, corr_ref):
+        fails.append((_MM + 'calculate_corr_from_cov', 'the matrix conversions do not modify their arguments', 'cov %r' % (A_list,)))
+    return fails
+
+
+def _mm_inputs(tier):
+    out = []
+    for vals in itertools.product(GRID, repeat=3):
+        if _exact_class(_sym_from(vals, 2)) == 'pd':
+            out.append({'n': 2, 'tril': list(vals)})
+    g3 = GRID if tier == 'thorough' else [-1, -0.5, 0, 0.5, 1, 2]
+    for vals in itertools.product(g3, repeat=6):
+        if vals[0] > 0 and vals[2] > 0 and vals[5] > 0 and _exact_class(_sym_from(vals, 3)) == 'pd':
+            out.append({'n': 3, 'tril': list(vals)})
+    return out
+
+
+# ---- driver -------------------------------------------------------------------------------------------------
+
+NUM_KINDS = {
+    'psd': (_chk_psd, _psd_inputs),
+    'corr': (_chk_corr, _corr_inputs),
+    'sdcorr': (_chk_sdcorr, _sdcorr_inputs),
+    'valid': (_chk_valid, _valid_inputs),
+    'model': (_chk_model, _model_inputs),
+    'ucp': (_chk_ucp, _ucp_inputs),
+    'mm': (_chk_mm, _mm_inputs),
+}
+NUM_ORDER = ['psd', 'corr', 'sdcorr', 'valid', 'model', 'ucp', 'mm']
+
+
+def _num_worker(task):
+    kind, items = task
+    fn = NUM_KINDS[kind][0]
+    col = _Collector()
+    for i, inp in items:
+        col.cases += 1
+        try:
+            fails = fn(inp)
+        except Exception as e:  # noqa  (an error of the check itself must be visible, not swallowed)
+            fails = [('b_rvs.py:' + fn.__name__, 'the check itself runs without error', '%s: %s' % (type(e).__name__, e))]
+        col.nontrivial += 1
+        if i in (3, 77) and len(col.samples) < 3:
+            col.samples.append('%s: %s' % (kind, json.dumps(inp)))
+        for fid, clause, detail in fails:
+            col.fail((NUM_ORDER.index(kind), i), fid, clause, detail, {'kind': kind, 'inp': inp}, 'bounded_rv_numeric_replay')
+    return col.export()
+
+
+def bounded_rv_numeric(tier):
+    import pharmpy.model  # noqa: F401
+    import pharmpy.modeling  # noqa: F401
+    _ucp_env()   # load the example models before forking
+    tasks = []
+    counts = {}
+    for kind in NUM_ORDER:
+        inputs = list(enumerate(NUM_KINDS[kind][1](tier)))
+        counts[kind] = len(inputs)
+        nch = max(1, min(NPROC * 4, len(inputs) // 50))
+        for c in range(nch):
+            part = inputs[c::nch]
+            if part:
+                tasks.append((kind, part))
+    # longest kinds first
+    tasks.sort(key=lambda t: -len(t[1]) * {'model': 6, 'ucp': 10, 'mm': 4, 'valid': 2, 'sdcorr': 2}.get(t[0], 1))
+    col = _Collector()
+    for part in _pool_map(_num_worker, tasks):
+        col.merge(part)
+    thorough = tier == 'thorough'
+    bound = ('nearest_positive_semidefinite / is_positive_semidefinite: all symmetric 2x2 matrices on the grid {-2,-1,-0.5,0,0.5,1,2} and all '
+             'symmetric 3x3 matrices on %s%s (%d matrices, exact rational classification as reference); cov2corr/corr2cov: all 2x2 and 3x3 '
+             'matrices with diagonal in {0.5,1,2} and grid off-diagonals, all unit-diagonal matrices with off-diagonals in {-1,-0.5,0,0.5,1} x sd in '
+             '{0.5,1,2}^n (%d); parameters_sdcorr: all all-IIV collections of <= %d variables (distinct / shared parameters, plus two equal 2-blocks and '
+             'the IOV pattern) x variances in {0.25,1,4} x covariances in {-0.1,0,0.2} (%d); validate/nearest_valid_parameters: the same collections x '
+             'variances in %s x covariances on the grid (%d); Model.create / Model.replace(parameters=): collections of <= 3 variables x value grid (%d); '
+             'ucp: pheno, moxo and their joint-distribution variants x every single and (theta, random) pair of fixed parameters, initial estimates '
+             'scaled, theta bounds changed, correlations %s, each variance fixed to zero (%d models); modeling/math.py: the 8 calculate_* conversions '
+             'on every positive definite 2x2 / 3x3 grid matrix (%d)'
+             % ('the same grid' if thorough else 'the grid {-1,-0.5,0,0.5,1,2}', ' and all symmetric 4x4 matrices on {-1,0,1}' if thorough else '',
+                counts['psd'], counts['corr'], 4 if thorough else 3, counts['sdcorr'], '{0,0.5,1,2}' if thorough else '{0.5,1,2}', counts['valid'],
+                counts['model'], '-0.9..0.9' if thorough else '-0.5/0.1/0.5', counts['ucp'], counts['mm']))
+    return col.result(bound)
+
+
+def bounded_rv_numeric_replay(rp):
+    case = rp['case']
+    kind = case['input']['kind']
+    fails = NUM_KINDS[kind][0](case['input']['inp'])
+    for fid, clause, detail in fails:
+        if clause == case['clause'] and fid == case['fid']:
+            return (False, detail)
+    return (True, 'ok')
